@@ -123,7 +123,7 @@ fn op_s(nac: u8, with_time: bool) -> BoxedStrategy<Op> {
 
 pub fn scenario_s(max_ops: usize, with_time: bool) -> impl Strategy<Value = Scenario> {
     (1u8..5).prop_flat_map(move |nac| {
-        (0u8..RX.len() as u8, 0u8..RANGES.len() as u8, proptest::collection::vec((bearing_s(), 0u16..900), nac as usize), proptest::collection::vec(op_s(nac, with_time), 0..max_ops), 0..nac, prop_oneof![3 => Just(0u8), 1 => 0u8..16])
+        (0u8..RX.len() as u8, 0u8..RANGES.len() as u8, proptest::collection::vec((bearing_s(), 0u16..900), nac as usize), proptest::collection::vec(op_s(nac, with_time), 0..max_ops), 0..nac, prop_oneof![6 => Just(0u8), 2 => 0u8..16, 1 => (0u8..16).prop_map(|x| x | 0x80)])
             .prop_map(|(rx, range, start, ops, isolate, snap)| Scenario { rx, range, start, ops, isolate, snap })
     })
 }
@@ -160,7 +160,15 @@ impl World {
                 let steps = (s.start[a].1 % 17) as f64 - 8.0;
                 let sign = if t.0 < 0.0 { -1.0 } else { 1.0 };
                 let l = t.0.abs();
-                let edge = refcpr::transitions().into_iter().min_by(|x, y| (x - l).abs().partial_cmp(&(y - l).abs()).unwrap()).unwrap();
+                let tr = refcpr::transitions();
+                let (edge, sign) = if s.snap & 0x80 != 0 {
+                    // any of the 58 transitions, either hemisphere, on the receiver's meridian
+                    let k = s.start[a].0 as usize;
+                    t.1 = rx.1 + 0.01 * a as f64;
+                    (tr[k % tr.len()], if (k / tr.len()) % 2 == 0 { 1.0 } else { -1.0 })
+                } else {
+                    (tr.iter().copied().min_by(|x, y| (x - l).abs().partial_cmp(&(y - l).abs()).unwrap()).unwrap(), sign)
+                };
                 t.0 = sign * (edge + steps * 360.0 / 60.0 / 131072.0 * 0.5).min(89.9);
             }
         }
@@ -1264,6 +1272,35 @@ pub fn run(ctx: &Ctx, pid: &'static str) -> ! {
             st.fail(Failure { sig, msg: format!("{msg}; history: {:?}", tr.steps), replay: scenario_json(&s) });
         }
     });
+    if pid == "C13" || pid == "C14" {
+        // every longitude-zone transition, both hemispheres: an aircraft creeps north and south
+        // across it in steps of about one CPR latitude step, even and odd reports alternating
+        // (unlimited range, so that every fix is published)
+        let mut n = 0u64;
+        for k in 0..116u16 {
+            for off in [0u16, 3, 8, 13, 16] {
+                for dir in [0u16, 180] {
+                    let mut ops = vec![];
+                    for j in 0..20 {
+                        ops.push(Op::Squitter { ac: 0, df18: if j % 7 == 3 { Some(2) } else { None }, kind: Kind::Position { odd: j % 2 == 1, tc: 11, alt: 0x5d0 | 0x10, src: PosSrc::Flight { bearing: dir, d_centinm: (j % 3 == 0) as u16 } } });
+                    }
+                    let sc = Scenario { rx: 0, range: 2, start: vec![(k, off)], ops, isolate: 0, snap: 0x81 };
+                    let (fails, _) = eval_scenario(&sc);
+                    n += 1;
+                    for (sig, msg) in fails.into_iter().filter(|f| f.0.starts_with(pid)) {
+                        if !st.failures.contains_key(&sig) {
+                            let tr = run_history(&sc, None, true);
+                            st.fail(Failure { sig, msg: format!("{msg}; history: {:?}", tr.steps), replay: scenario_json(&sc) });
+                        }
+                    }
+                }
+            }
+        }
+        st.evaluations += n;
+        st.nontrivial_enum += n;
+        st.class_n("flight across a zone transition", n);
+        st.exhaustive.push("flights across each of the 58 longitude-zone transitions in both hemispheres (5 offsets x 2 directions)".into());
+    }
     if pid == "C12" {
         for (n, rounds) in [(700usize, 3usize), (2100, 2), (70_000, 1)] {
             if n > 3000 && ctx.tier == Tier::Quick {
